@@ -121,6 +121,12 @@ def Env.clean : Env → Bool
 structure Sem where
   prim : PrimOp → List Val → PyM Val
   isFun : String → Bool
+  /-- functions whose application to an error-object argument yields an error (value or raised) -/
+  strictFn : String → Bool
+  /-- Python iteration over a value (`map(f, x)`, `for v in x`): list elements, map keys, …; `TypeError` if not iterable -/
+  iter : Val → PyM (List Val)
+  /-- `celpy.celtypes.BoolType(x)` as applied to the fold result in `macro_all`/`macro_exists` -/
+  toBool : Val → PyM Val
 
 /-! ### syntactic zones -/
 
@@ -131,27 +137,27 @@ def errSourceFn (f : String) : Bool := f == "matches"
 mutual
 /-- The compiled runner can never produce an error *value* (object) for this expression: it contains
 no `||`, `&&`, `?:`, no `in`, no `matches`, no call of an unbound function, no `has`. -/
-def Expr.noErrVal (isFun : String → Bool) : Expr → Bool
+def Expr.noErrVal (S : Sem) : Expr → Bool
   | .lit v => v.clean
   | .badlit => true
   | .ident _ => true
-  | .un _ a => a.noErrVal isFun
-  | .bin op a b => op != .in_ && a.noErrVal isFun && b.noErrVal isFun
-  | .idx a i => a.noErrVal isFun && i.noErrVal isFun
-  | .sel a _ => a.noErrVal isFun
+  | .un _ a => a.noErrVal S
+  | .bin op a b => op != .in_ && a.noErrVal S && b.noErrVal S
+  | .idx a i => a.noErrVal S && i.noErrVal S
+  | .sel a _ => a.noErrVal S
   | .or _ _ => false
   | .and _ _ => false
   | .cond _ _ _ => false
-  | .list xs => Expr.noErrValL isFun xs
-  | .map kvs => Expr.noErrValL isFun kvs
-  | .call f args => isFun f && !errSourceFn f && Expr.noErrValL isFun args
-  | .mcall a f args => isFun f && !errSourceFn f && a.noErrVal isFun && Expr.noErrValL isFun args
-  | .macro _ a _ body => a.noErrVal isFun && body.noErrVal isFun
+  | .list xs => Expr.noErrValL S xs
+  | .map kvs => Expr.noErrValL S kvs
+  | .call f args => S.isFun f && !errSourceFn f && Expr.noErrValL S args
+  | .mcall a f args => S.isFun f && !errSourceFn f && a.noErrVal S && Expr.noErrValL S args
+  | .macro _ a _ body => a.noErrVal S && body.noErrVal S
   | .has _ => false
-  | .dyn a => a.noErrVal isFun
-def Expr.noErrValL (isFun : String → Bool) : List Expr → Bool
+  | .dyn a => a.noErrVal S
+def Expr.noErrValL (S : Sem) : List Expr → Bool
   | [] => true
-  | x :: xs => x.noErrVal isFun && Expr.noErrValL isFun xs
+  | x :: xs => x.noErrVal S && Expr.noErrValL S xs
 end
 
 /-- syntactically boolean-valued (value is a `BoolType` or an error) -/
@@ -171,29 +177,29 @@ mutual
 does not look at it (D7): list elements, map keys/values, call and method-call arguments and receivers,
 bodies of `map`/`filter`/`exists_one`; no `has()` (D6: the transpiled `has` returns a Python `bool`);
 bodies of `all`/`exists` syntactically boolean (the transpiled helper coerces the fold with `BoolType`). -/
-def Expr.safe (isFun : String → Bool) : Expr → Bool
+def Expr.safe (S : Sem) : Expr → Bool
   | .lit v => v.clean
   | .badlit => true
   | .ident _ => true
-  | .un _ a => a.safe isFun
-  | .bin _ a b => a.safe isFun && b.safe isFun
-  | .idx a i => a.safe isFun && i.safe isFun
-  | .sel a _ => a.safe isFun
-  | .or a b => a.safe isFun && b.safe isFun
-  | .and a b => a.safe isFun && b.safe isFun
-  | .cond c x y => c.safe isFun && x.safe isFun && y.safe isFun
-  | .list xs => Expr.noErrValL isFun xs && Expr.safeL isFun xs
-  | .map kvs => Expr.noErrValL isFun kvs && Expr.safeL isFun kvs
-  | .call _ args => Expr.noErrValL isFun args && Expr.safeL isFun args
-  | .mcall a _ args => a.noErrVal isFun && a.safe isFun && Expr.noErrValL isFun args && Expr.safeL isFun args
+  | .un _ a => a.safe S
+  | .bin _ a b => a.safe S && b.safe S
+  | .idx a i => a.safe S && i.safe S
+  | .sel a _ => a.safe S
+  | .or a b => a.safe S && b.safe S
+  | .and a b => a.safe S && b.safe S
+  | .cond c x y => c.safe S && x.safe S && y.safe S
+  | .list xs => Expr.noErrValL S xs && Expr.safeL S xs
+  | .map kvs => Expr.noErrValL S kvs && Expr.safeL S kvs
+  | .call f args => (S.strictFn f || Expr.noErrValL S args) && Expr.safeL S args
+  | .mcall a f args => (S.strictFn f || (a.noErrVal S && Expr.noErrValL S args)) && a.safe S && Expr.safeL S args
   | .macro k a _ body =>
-      a.safe isFun && body.safe isFun &&
-      (if k == .all || k == .exists_ then body.boolish else body.noErrVal isFun)
+      a.safe S && body.safe S &&
+      (if k == .all || k == .exists_ then body.boolish else body.noErrVal S)
   | .has _ => false
-  | .dyn a => a.safe isFun
-def Expr.safeL (isFun : String → Bool) : List Expr → Bool
+  | .dyn a => a.safe S
+def Expr.safeL (S : Sem) : List Expr → Bool
   | [] => true
-  | x :: xs => x.safe isFun && Expr.safeL isFun xs
+  | x :: xs => x.safe S && Expr.safeL S xs
 end
 
 end Cel
